@@ -233,8 +233,36 @@ var searchFENs = []string{
 	"8/8/8/8/3b4/8/1n6/k1K5 w - - 0 1",
 	"7k/7p/7K/8/8/8/8/6R1 w - - 0 1",
 	"8/8/8/8/8/1k6/2q5/K7 w - - 0 1",
+	// stalemates (side to move has no legal move and is not in check), also with the stalemated side ahead
+	"7k/5Q2/6K1/8/8/8/8/8 b - - 0 1",
+	"k7/P7/1K3p2/5p2/5p2/5P2/8/8 b - - 0 1",
+	"k7/8/PK3p2/5p2/5p2/5P2/8/8 w - - 0 1",
+	"5k2/5P2/5K2/8/8/8/8/8 b - - 0 1",
+	"8/8/8/8/8/5k2/5p2/5K2 w - - 0 1",
 	"1k6/8/1K6/8/8/8/8/7Q w - - 99 60",
 	"4k3/8/8/8/8/8/8/4K2R w K - 98 70",
+}
+
+// windowAround draws a window bound near a given heuristic value (the static evaluation of the root),
+// so that bounds equal to / just below / just above interesting values occur often.
+func windowAround(c *caseCtx, m int) eval.Score {
+	switch c.r.Intn(6) {
+	case 0:
+		return randomWindowScore(c)
+	case 1:
+		return eval.HeuristicScore(0)
+	default:
+		return eval.HeuristicScore(eval.Pawns(float32(m + c.r.Intn(5) - 2)))
+	}
+}
+
+func materialOf(f string) int {
+	pos, turn, _, _, err := fen.Decode(f)
+	if err != nil || pos == nil {
+		return 0
+	}
+	b := board.NewBoard(board.NewZobristTable(0), pos, turn, 0, 1)
+	return int(eval.Material{}.Evaluate(context.Background(), b))
 }
 
 func randomWindowScore(c *caseCtx) eval.Score {
@@ -343,7 +371,9 @@ func casesSearch(c *caseCtx, prop string) {
 			cfg := full
 			cfg.depths = []int{1 + c.r.Intn(maxd)}
 			cfg.quiet = c.r.Intn(3) == 0
-			a, b := randomWindowScore(c), randomWindowScore(c)
+			f := pick()
+			m := materialOf(f)
+			a, b := windowAround(c, m), windowAround(c, m)
 			if b.Less(a) {
 				a, b = b, a
 			}
@@ -351,7 +381,26 @@ func casesSearch(c *caseCtx, prop string) {
 				continue
 			}
 			cfg.low, cfg.high = a, b
-			runSearchCase(c, zt, zseed, pick(), nil, cfg)
+			runSearchCase(c, zt, zseed, f, nil, cfg)
+		}
+		// every curated position (stalemates and mates included) at depth 0 and 1 with quiescence, windows
+		// around the static evaluation
+		for _, f := range searchFENs[:len(searchFENs)-2] {
+			m := materialOf(f)
+			for k := 0; k < c.scale(4, 20); k++ {
+				cfg := full
+				cfg.depths = []int{k % 2}
+				cfg.quiet = true
+				a, b := windowAround(c, m), windowAround(c, m)
+				if b.Less(a) {
+					a, b = b, a
+				}
+				if !a.Less(b) {
+					continue
+				}
+				cfg.low, cfg.high = a, b
+				runSearchCase(c, zt, zseed, f, nil, cfg)
+			}
 		}
 		// depth 0 = quiescence alone
 		for i := 0; i < c.scale(40, 800); i++ {
